@@ -545,6 +545,9 @@ func (vc *VC) applyContract(fr *Frame, st *State, con *Contract, callee *ssa.Fun
 	}
 	post.pol = 1
 	for _, e := range con.Ensures {
+		if strings.HasSuffix(e.Label, "!onpanic") {
+			continue // holds where the callee panics, says nothing about its normal return
+		}
 		t := vc.evalSpecBool(post, e)
 		vc.assume(st, t)
 	}
